@@ -410,6 +410,16 @@ pub fn run_c10_gate(ctx: &Ctx) {
     #[inline(never)] fn b6(_f: fn() -> i32) -> bool { std::hint::black_box(false) }
     #[inline(never)] fn b7(_f: fn() -> bool, _g: Option<bool>) -> bool { std::hint::black_box(false) }
     #[inline(never)] fn b8<T: Default>(_t: T) -> bool { std::hint::black_box(false) }
+    #[allow(non_camel_case_types)]
+    struct Größe(u8);
+    #[allow(non_camel_case_types)]
+    struct Länge(u8);
+    #[inline(never)] fn b9(_a: &Größe) -> bool { std::hint::black_box(false) }
+    #[inline(never)] fn b10(_a: Größe, _b: (Länge, Länge)) -> bool { std::hint::black_box(false) }
+    #[inline(never)] fn n16(_a: &Größe) -> Länge { Länge(0) }
+    gate!("fn(&non-ascii)->bool", true, b9, fn(&Größe) -> bool, |v: bool| b9(&Größe(1)) == v);
+    gate!("fn(non-ascii,(non-ascii,non-ascii))->bool", true, b10, fn(Größe, (Länge, Länge)) -> bool, |v: bool| b10(Größe(1), (Länge(2), Länge(3))) == v);
+    gate!("fn(&non-ascii)->non-ascii", false, n16, fn(&Größe) -> Länge, |_v: bool| true);
     gate!("fn()->bool", true, b0, fn() -> bool, |v: bool| b0() == v);
     gate!("fn(i32,&u8)->bool", true, b1, fn(i32, &u8) -> bool, |v: bool| b1(1, &2) == v);
     gate!("unsafe-fn()->bool", true, b2, unsafe fn() -> bool, |v: bool| unsafe { b2() } == v);
